@@ -83,6 +83,13 @@ def run(ck, rng, tier):
             step = [-2.0] + [float(rng.choice((3, 4, 10)))] * (dim - 1)
             iters = (10, 4000)[c % 2]
             ck.count("nm exact tie between the reflected and the worst vertex")
+        if c in (4, 5, 6, 7):
+            A = np.array([[2.0, 0.5], [0.5, 1.0]]); xmin = np.array([1.0, -2.0]); b = -2 * A @ xmin; dim = 2
+            if c == 4:      # all three vertices of the start simplex carry exactly the same value (f = 8)
+                x0, step, iters = [0.0, -4.0], [3.0, 5.0], 4000
+            else:           # negative steps, the best start vertex is one of the stepped ones, almost no iterations allowed
+                x0, step, iters = [3.0, 0.0], [-2.0, -2.0], (0, 1, 3)[c - 5]
+            ck.count("nm flat start simplex / negative steps with a tiny budget")
         lines.append("nm %s %s %s %s 1e-13 %d" % (vf.fmt_mat(A.tolist()), vf.fmt_vec(b.tolist()), vf.fmt_vec(x0), vf.fmt_vec(step), iters))
         meta.append(("nm", A, b, x0, step, iters, xmin))
         ck.count("nm dim %d" % dim)
